@@ -20,6 +20,11 @@ type FmtCase struct {
 	// ProjDir names the directory holding the spokfile ("" = proj)
 	ProjDir string `json:"proj_dir,omitempty"`
 	Src     string `json:"src"`
+	// Elsewhere: run from another directory with --spokfile <project>/spokfile
+	Elsewhere bool `json:"elsewhere,omitempty"`
+	// OtherCase: the text is in <project>/Spokfile and --spokfile points at it, next to a different,
+	// working <project>/spokfile. spok may refuse the name; whatever it does, it must not touch the sibling
+	OtherCase bool `json:"other_case,omitempty"`
 }
 
 // genFmt draws an abstract program in a random layout whose loading has no side effects
@@ -28,6 +33,12 @@ type FmtCase struct {
 func genFmt(t *rapid.T) FmtCase {
 	c := genFmtBody(t)
 	c.ProjDir = genProjDir(t)
+	switch rapid.IntRange(0, 7).Draw(t, "invocation") {
+	case 0, 1:
+		c.Elsewhere = true
+	case 2:
+		c.OtherCase = true
+	}
 	return c
 }
 
@@ -99,14 +110,51 @@ func execFmtBinary(id string, s *ev.Shard, b *sandbox.Box, c FmtCase) *rp.Fail {
 	if err := b.ResetAs(c.ProjDir); err != nil {
 		return &rp.Fail{Sig: "harness", Msg: err.Error()}
 	}
-	if err := writeProject(b, b.Proj, map[string]string{"spokfile": c.Src}); err != nil {
+	const siblingSrc = "# the other one\nOTHER := \"kept\"\n\ntask other() {\n    echo other\n}\n"
+	files := map[string]string{"spokfile": c.Src, "spokfile.bak": siblingSrc, "sub/spokfile": siblingSrc}
+	path := filepath.Join(b.Proj, "spokfile")
+	cwd, fmtArgs := b.Proj, []string{"--fmt"}
+	if c.OtherCase {
+		files["spokfile"], files["Spokfile"] = siblingSrc, c.Src
+		path = filepath.Join(b.Proj, "Spokfile")
+		fmtArgs = []string{"--spokfile", path, "--fmt"}
+	}
+	if err := writeProject(b, b.Proj, files); err != nil {
 		return &rp.Fail{Sig: "harness", Msg: err.Error()}
 	}
-	path := filepath.Join(b.Proj, "spokfile")
+	if c.Elsewhere {
+		if err := writeProject(b, b.Home, map[string]string{"elsewhere/spokfile": siblingSrc}); err != nil {
+			return &rp.Fail{Sig: "harness", Msg: err.Error()}
+		}
+		cwd = filepath.Join(b.Home, "elsewhere")
+		fmtArgs = []string{"--spokfile", path, "--fmt"}
+	}
 	size := len(c.Src)
-	r1 := b.Run(b.Proj, nil, runTimeout, "--fmt")
+	before, err := sandbox.Snapshot(b.SB)
+	if err != nil {
+		return &rp.Fail{Sig: "harness", Msg: err.Error()}
+	}
+	r1 := b.Run(cwd, nil, runTimeout, fmtArgs...)
 	if r1.TimedOut {
 		return &rp.Fail{Sig: "harness", Msg: "spok --fmt timed out"}
+	}
+	// --fmt rewrites the file it was pointed at and nothing else (the cache directory aside): any
+	// other spokfile lying around keeps working as it did
+	if after, err := sandbox.Snapshot(b.SB); err == nil && id == "C07" {
+		target, _ := filepath.Rel(b.SB, path)
+		projRel, _ := filepath.Rel(b.SB, b.Proj)
+		for _, ch := range sandbox.Diff(before, after) {
+			if ch.Path == filepath.ToSlash(target) || sandbox.Under(ch.Path, filepath.ToSlash(projRel)+"/.spok") {
+				continue
+			}
+			return &rp.Fail{Sig: "fmt-touched-another-file", Size: size, Msg: fmt.Sprintf("`spok %s` from %s (exit %d): %s was %s, which is not the file --fmt was pointed at (%s)", strings.Join(fmtArgs, " "), cwd, r1.Exit, ch.Path, ch.What, target)}
+		}
+	}
+	if c.OtherCase && r1.Exit != 0 {
+		if s != nil {
+			s.Class("fmt_refused_file_name")
+		}
+		return nil
 	}
 	if r1.Exit != 0 {
 		// a spokfile that parses but does not load (duplicate task names, ...) is left alone by --fmt
@@ -151,7 +199,7 @@ func execFmtBinary(id string, s *ev.Shard, b *sandbox.Box, c FmtCase) *rp.Fail {
 		if err2 != nil {
 			return nil
 		}
-		r2 := b.Run(b.Proj, nil, runTimeout, "--fmt")
+		r2 := b.Run(cwd, nil, runTimeout, fmtArgs...)
 		data2, _ := os.ReadFile(path)
 		if r2.Exit != 0 || string(data2) != f1 {
 			return &rp.Fail{Sig: "fmt-not-idempotent", Size: size, Msg: fmt.Sprintf("spokfile %q: first --fmt gives %q, second --fmt (exit %d) gives %q", c.Src, f1, r2.Exit, data2)}
